@@ -297,7 +297,13 @@ Hopen(const char *path, int acc_mode, int16 ndds)
             /* Replace file_rec->file with new file pointer and
                close old one. */
             if (HI_CLOSE(file_rec->file) == FAIL) {
-                HI_CLOSE(f);
+                /* the old stream is gone whether or not its close succeeded:
+                   the file record, which the other file IDs share, must not
+                   be left without a stream.  It gets the new one; this open
+                   is still reported as failed. */
+                file_rec->file      = f;
+                file_rec->f_cur_off = 0;
+                file_rec->last_op   = H4_OP_UNKNOWN;
                 HGOTO_ERROR(DFE_CANTCLOSE, FAIL);
             }
             file_rec->file      = f;
